@@ -97,6 +97,22 @@ def run(prog, tier) -> Result:
     res.ob("R13.2", "decimalfp.ROUNDING", "eight modes", len(modes) == 8, str(modes), sig="mode set changed",
            nontrivial=False)
 
+    # R13.6: functions on the path from quantize to the helper read the ambient default mode at call time:
+    # none of them may be memoised (a cached result would survive set_dflt_rounding_mode)
+    chain = {helper.qualname: helper, caller.qualname: caller,
+             "Quantity.quantize": prog.method("Quantity", "quantize")}
+    for qn, fi in chain.items():
+        decs = [src_of(d) for d in fi.node.decorator_list]
+        memo = [d for d in decs if any(k in d.lower() for k in ("cache", "memo", "lru"))]
+        res.ob("R13.6", qn, "not memoised", not memo,
+               f"decorators {decs}: a result computed under one default rounding mode would be replayed under another",
+               sig="rounding path is memoised across default-mode changes", nontrivial=False)
+    gd = [n for n in ast.walk(helper.node) if isinstance(n, ast.Call) and src_of(n.func) == "get_dflt_rounding_mode"]
+    res.ob("R13.6", helper.qualname, "default mode read at call time", bool(gd) or any(
+        isinstance(n, ast.Call) and src_of(n.func) == "get_dflt_rounding_mode" for n in ast.walk(caller.node)),
+        "no call of get_dflt_rounding_mode() on the fraction path", sig="default rounding mode not consulted",
+        nontrivial=False)
+
     # R13.3 - R13.5 Engine A
     cr = CaseRunner(prog, res, max_depth=8 if tier == "quick" else 12)
     qz = prog.method("Quantity", "quantize")
